@@ -146,6 +146,87 @@ def replay_one(d, bind, e, run_mod, cfg):
     return got
 
 
+REAL_PY_SHIM = """#!/bin/sh
+# the real interpreter; this sandbox has no libmpi, so the child is started with the library's own non-MPI communicator
+script="$1"; shift
+exec /venv/bin/python -c "
+import sys, runpy
+from ad_afqmc import config
+config.afqmc_config['use_mpi'] = False
+sys.argv = [sys.argv[1]] + sys.argv[2:]
+runpy.run_path(sys.argv[0], run_name='__main__')
+" "$script" "$@"
+"""
+REAL_OPTS = {"n_walkers": 4, "n_prop_steps": 2, "n_ene_blocks": 1, "n_sr_blocks": 1, "n_blocks": 4, "n_eql": 1,
+             "n_ene_blocks_eql": 1, "n_sr_blocks_eql": 1, "trial": "uhf", "walker_type": "uhf", "seed": 5, "dt": 0.01}
+
+
+def real_child(chk: Check, run_mod):
+    """ONE behaviour of Launch.tla end to end with the REAL child: run_afqmc(options, mpi_prefix="timeout 300 ") starts the
+    library's own mpi_jax.py in a directory holding a 3-orbital problem; the child must echo the options it was handed
+    (HandOver), write ene_err.txt at the very end, and the caller must return exactly those numbers (FreshIffCompleted),
+    which must be the numbers driver.afqmc computes in-process for the same directory, options and seed.  Divergences only;
+    if the child cannot be started here the reason is noted."""
+    import subprocess
+    import numpy as np
+    from . import setupopt
+    d = chk.scratch("c16-launch-real")
+    bind = chk.scratch("c16-launch-realbin")
+    p = bind / "python"
+    p.write_text(REAL_PY_SHIM)
+    p.chmod(p.stat().st_mode | stat.S_IXUSR | stat.S_IXGRP | stat.S_IXOTH)
+    x = {"id": 1, "src": "nofile", "decoy": False, "g": {"trial": "absent", "wt": "absent", "fp": "absent", "sym": "absent", "nb": 0,
+                                                         "adm": "absent", "nums": False},
+         "d": {"amp": "none", "tpkl": "none", "obsf": "none", "dets": "none", "shell": "open"}}
+    setupopt.build_dir(d, x)
+    repo = os.path.dirname(os.path.dirname(os.path.abspath(run_mod.__file__)))
+    code = (f"import os, sys; sys.path.insert(0, {repo!r}); os.chdir({str(d)!r}); "
+            f"from ad_afqmc import run_afqmc; r = run_afqmc.run_afqmc(options={REAL_OPTS!r}, mpi_prefix='timeout 300 '); "
+            "print('RETURNED', repr(float(r[0])), repr(float(r[1])))")
+    env = dict(os.environ, PATH=f"{bind}:/usr/bin:/bin", PYTHONPATH=repo, JAX_PLATFORMS="cpu")
+    try:
+        out = subprocess.run(["/venv/bin/python", "-c", code], env=env, capture_output=True, text=True, timeout=600).stdout
+    except Exception as ex:                                    # noqa: BLE001
+        chk.note("launch_real_child", f"not run: {type(ex).__name__}: {ex}"[:200])
+        return
+    ret = [ln for ln in out.splitlines() if ln.startswith("RETURNED")]
+    if not ret or not (d / "ene_err.txt").exists():
+        chk.note("launch_real_child", "the real child did not complete in this sandbox: " + out[-300:])
+        return
+    r = tuple(float(v) for v in ret[0].split()[1:])
+    f = tuple(float(v) for v in (d / "ene_err.txt").read_text().split())
+    chk.case(("launch", "real-child"))
+    chk.traces += 1
+    echoed = {}
+    for ln in out.splitlines():
+        if ln.startswith("# ") and ": " in ln:
+            k, v = ln[2:].split(": ", 1)
+            echoed[k.strip()] = v.strip()
+    for k, v in REAL_OPTS.items():
+        if echoed.get(k) != str(v):
+            chk.divergence("launch:real-child:HandOver", f"the child echoed option {k} = {echoed.get(k)!r}, the caller passed {v!r}")
+    if r != f or not all(np.isfinite(r)):
+        chk.divergence("launch:real-child:FreshIffCompleted", f"run_afqmc returned {r}, the child wrote {f}")
+    # the same directory, options and seed in-process
+    try:
+        from ad_afqmc import driver, mpi_jax
+        cwd = os.getcwd()
+        os.chdir(d)
+        try:
+            with contextlib.redirect_stdout(io.StringIO()):
+                a = mpi_jax._prep_afqmc(dict(REAL_OPTS))
+                e, err = driver.afqmc(*a)
+        finally:
+            os.chdir(cwd)
+        same = abs(float(e) - r[0]) <= 1e-9 * max(1.0, abs(r[0])) and abs(float(err) - r[1]) <= 1e-9
+        if not same:
+            chk.divergence("launch:real-child:driver", f"run_afqmc returned {r}, driver.afqmc in-process gives {(float(e), float(err))}")
+        chk.note("launch_real_child", {"returned": list(r), "file": list(f), "in_process": [float(e), float(err)],
+                                       "options_echoed_by_child": len([k for k in REAL_OPTS if echoed.get(k) == str(REAL_OPTS[k])])})
+    except Exception as ex:                                    # noqa: BLE001
+        chk.note("launch_real_child", {"returned": list(r), "file": list(f), "in_process": f"not run: {type(ex).__name__}: {ex}"[:200]})
+
+
 def run(chk: Check):
     from ad_afqmc import config as cfg
     from ad_afqmc import run_afqmc as run_mod
@@ -175,3 +256,4 @@ def run(chk: Check):
             dev["NprocWithoutLauncher"] += 1
     chk.note("launch_replay", {"behaviours_replayed": len(recs), "fields_diverging": ndiv,
                                "named_deviations_observed_in_the_real_launcher": dev})
+    real_child(chk, run_mod)
